@@ -30,14 +30,9 @@ fn build(v: &MVersion, via_parse: bool) -> Result<Version, Failure> {
         let t = v.text();
         if t.len() <= max_len() {
             return match guard(|| Version::parse(&t)) {
-                Ok(Ok(c)) => {
-                    // only use the parsed value when it denotes the same fields (C05/C12 decide otherwise)
-                    if MVersion::from_crate(&c) == *v {
-                        Ok(c)
-                    } else {
-                        Ok(v.to_crate())
-                    }
-                }
+                // the parsed value is compared as it is: if the parser reads a canonical text differently
+                // from what it denotes, the precedence of parsed versions is wrong and that shows here
+                Ok(Ok(c)) => Ok(c),
                 _ => Ok(v.to_crate()),
             };
         }
